@@ -1215,9 +1215,13 @@ func representableConst(c constant.Value, t reflect.Type) bool {
 		}
 		switch t.Kind() {
 		case reflect.Int, reflect.Int8, reflect.Int16, reflect.Int32, reflect.Int64:
-			if _, ok := constant.Int64Val(x); !ok {
+			v, ok := constant.Int64Val(x)
+			if !ok {
 				return false
 			}
+			// BitLen ignores the sign: check the exact range of the type instead.
+			s := uint(bitlen[t.Kind()])
+			return -1<<(s-1) <= v && v <= 1<<(s-1)-1
 		case reflect.Uint, reflect.Uint8, reflect.Uint16, reflect.Uint32, reflect.Uint64, reflect.Uintptr:
 			if _, ok := constant.Uint64Val(x); !ok {
 				return false
